@@ -9,6 +9,7 @@ package asserts_test
 // ends early, corrupts or exceeds the decoder's limits.
 
 import (
+	"bufio"
 	"bytes"
 	"fmt"
 	"io"
@@ -35,6 +36,8 @@ var verifEngineC20 = &verifsim.Engine{
 		"no database: signatures are not verified here (that is C18)",
 	},
 }
+
+const verifBufioClass = "valid-stream-rejected:decoder-given-the-callers-bufio-reader"
 
 const verifBlankLineClass = "stream-decoder-accepts-empty-line-before-signature:result-does-not-reencode"
 
@@ -263,6 +266,28 @@ func (w *verifC20) genAssertion(i int) (asserts.Assertion, string) {
 		}
 	}
 	a := verifMustSign(c, w.key, t, h, body)
+	if c.Chance("pad-headers", 1, 6) {
+		// make the header block exactly as long as one of the stream
+		// decoder's look-ahead windows minus one (the "\n\n" after it then
+		// straddles the window), or put it between 64 KiB and the 128 KiB
+		// limit
+		target := []int{4095, 8191, 4094, 4096, 16383, 8190, 65535, 65536 + c.Draw("pad-64k", 60000), asserts.MaxHeadersSize - 2, 32767}[c.Draw("pad-target", 10)]
+		content, _ := a.Signature()
+		n := target - verifHeadLen(content) - len("\nx-pad: ")
+		if n >= 0 {
+			h["x-pad"] = strings.Repeat("p", n)
+			a = verifMustSign(c, w.key, t, h, body)
+			content, _ = a.Signature()
+			if verifHeadLen(content) != target {
+				c.Fatalf("padding missed its target: %d != %d", verifHeadLen(content), target)
+			}
+			if target >= 65535 {
+				c.Count("probe:headers-between-64k-and-the-limit")
+			} else {
+				c.Count("probe:headers-end-at-window-boundary")
+			}
+		}
+	}
 	return a, fmt.Sprintf("#%d %s extra=%d body=%d enc=%d", i, verifIdentity(a), nx, len(body), len(asserts.Encode(a)))
 }
 
@@ -313,7 +338,7 @@ func verifDiff(a, d asserts.Assertion) string {
 func (w *verifC20) stable(x asserts.Assertion, from string) {
 	y, err := asserts.Decode(asserts.Encode(x))
 	if _, xs := x.Signature(); err != nil && len(xs) > 0 && xs[0] == '\n' {
-		w.c.Count("probe:newline-led-signature-handed-out")
+		w.c.Count("newline-led-signature-handed-out") // plain counter: cannot happen on a tree with the repair
 		w.violate(verifBlankLineClass, "the stream decoder accepted an assertion (%s) whose signature block starts with an empty line; asserts.Encode of it is rejected by asserts.Decode (%v), so the filesystem backstore cannot read back what Add stores", verifIdentity(x), err)
 		return
 	}
@@ -401,7 +426,7 @@ func verifRunC20(c *verifsim.Ctx) {
 
 	scenario := "intact"
 	if faults {
-		scenario = []string{"intact", "truncate", "io-error", "stall", "bit-flip", "garbage", "small-limits", "type-body-limit", "arbitrary", "eof-with-data", "truncate", "io-error"}[c.Draw("scenario", 12)]
+		scenario = []string{"intact", "truncate", "io-error", "stall", "bit-flip", "garbage", "small-limits", "type-body-limit", "arbitrary", "eof-with-data", "truncate", "io-error", "hostile-header-values", "hostile-header-values", "header-over-limit"}[c.Draw("scenario", 15)]
 	}
 	data := stream
 	rd := verifNewReader(c, nil)
@@ -411,7 +436,32 @@ func verifRunC20(c *verifsim.Ctx) {
 	stallN := 0 // as configured; the reader counts its own copy down
 	limH, limB, limS := -1, -1, -1
 	var typeLimit map[*asserts.AssertionType]int
+	hostileAt, hostileHow := -1, ""
 	switch scenario {
+	case "hostile-header-values":
+		hostileAt = c.Draw("hostile-which", n)
+		var tampered []byte
+		tampered, hostileHow = w.hostileHeaders(stream[starts[hostileAt]:sigStarts[hostileAt]-2], len(sent[hostileAt].Body()))
+		data = append(append(append([]byte(nil), stream[:starts[hostileAt]]...), tampered...), stream[sigStarts[hostileAt]-2:]...)
+		c.Logf("hostile header value in #%d: %s", hostileAt, hostileHow)
+		w.fault("hostile-header-value")
+	case "header-over-limit":
+		// one more assertion whose header block is just over MaxHeadersSize
+		over := asserts.MaxHeadersSize - 1 + c.Draw("over-by", 200)
+		h := map[string]interface{}{"authority-id": "canonical", "primary-key": "big"}
+		a0 := verifMustSign(c, w.key, asserts.TestOnlyType, h, nil)
+		c0, _ := a0.Signature()
+		h["x-pad"] = strings.Repeat("p", over-verifHeadLen(c0)-len("\nx-pad: "))
+		big := verifMustSign(c, w.key, asserts.TestOnlyType, h, nil)
+		if d, err := asserts.Decode(asserts.Encode(big)); err != nil || verifDiff(big, d) != "" {
+			w.violate("valid-assertion-rejected", "Decode (which has no size limits) does not round-trip an assertion with %d bytes of headers: %v", over, err)
+		}
+		if err := enc.Encode(big); err != nil {
+			c.Fatalf("encoder: %v", err)
+		}
+		data = append([]byte(nil), buf.Bytes()...)
+		c.Logf("appended an assertion with %d bytes of headers (limit %d)", over, asserts.MaxHeadersSize)
+		w.fault("headers-over-the-limit")
 	case "truncate":
 		cutAt = c.Draw("cut", len(stream))
 		if c.Chance("cut-in-signature", 1, 2) {
@@ -517,7 +567,33 @@ func verifRunC20(c *verifsim.Ctx) {
 		}
 	}
 
-	dec := mkDecoder(rd)
+	if hostileAt >= 0 {
+		lo := starts[hostileAt]
+		hi := len(data) - (len(stream) - ends[hostileAt])
+		if x, err := asserts.Decode(data[lo:hi]); err == nil {
+			c.Count("probe:hostile-header-value-accepted-by-decode")
+			w.stable(x, "an assertion with a hostile header value ("+hostileHow+", Decode)")
+		}
+	}
+
+	// the caller may hand in its own *bufio.Reader (only done for streams
+	// that must decode completely)
+	var src io.Reader = rd
+	wrapped := 0
+	if scenario == "intact" || scenario == "eof-with-data" {
+		switch c.Draw("reader-kind", 16) {
+		case 14:
+			wrapped = 8192
+		case 15:
+			wrapped = 4096
+		}
+		if wrapped > 0 {
+			src = bufio.NewReaderSize(rd, wrapped)
+			c.Count("probe:decoder-given-a-bufio-reader")
+		}
+	}
+
+	dec := mkDecoder(src)
 	var got []asserts.Assertion
 	var derr error
 	for i := 0; i < n+4; i++ {
@@ -556,7 +632,15 @@ func verifRunC20(c *verifsim.Ctx) {
 	switch scenario {
 	case "intact", "eof-with-data":
 		if derr != io.EOF || len(got) != n {
-			w.violate("valid-stream-rejected", "%s stream of %d assertions (chunk %d): decoded %d, then %v", scenario, n, rd.chunk, len(got), derr)
+			class := "valid-stream-rejected"
+			if wrapped > 0 {
+				class = verifBufioClass
+			}
+			via := "plain reader"
+			if wrapped > 0 {
+				via = fmt.Sprintf("handed to NewDecoder as a *bufio.Reader with a %d byte buffer", wrapped)
+			}
+			w.violate(class, "%s stream of %d assertions (chunk %d, %s): decoded %d, then %v", scenario, n, rd.chunk, via, len(got), derr)
 			return
 		}
 		intactPrefix(n)
@@ -613,6 +697,31 @@ func verifRunC20(c *verifsim.Ctx) {
 		if len(got) < n && derr != io.EOF {
 			c.Count("probe:truncation-reported")
 		}
+	case "hostile-header-values":
+		// everything before the tampered assertion is valid and must come out
+		if len(got) < hostileAt {
+			w.violate("valid-stream-rejected", "hostile value in #%d (%s): the decoder stops after %d with %v", hostileAt, hostileHow, len(got), derr)
+			return
+		}
+		if !intactPrefix(hostileAt) {
+			return
+		}
+		for _, x := range got[hostileAt:] {
+			c.Count("probe:hostile-header-value-accepted-by-stream-decoder")
+			w.stable(x, "a stream with a hostile header value ("+hostileHow+")")
+		}
+	case "header-over-limit":
+		if len(got) > n {
+			content, _ := got[n].Signature()
+			w.violate("size-limit-not-enforced", "the default decoder (MaxHeadersSize %d) hands out an assertion with %d bytes of headers", asserts.MaxHeadersSize, verifHeadLen(content))
+			return
+		}
+		if len(got) < n || derr == io.EOF {
+			w.violate("valid-stream-rejected", "stream of %d valid assertions followed by an oversized one: decoded %d, then %v", n, len(got), derr)
+			return
+		}
+		intactPrefix(n)
+		c.Count("probe:oversized-assertion-refused")
 	case "bit-flip", "garbage", "arbitrary":
 		for _, x := range got {
 			w.stable(x, "a damaged stream")
@@ -750,4 +859,69 @@ func (w *verifC20) genArbitrary(stream []byte, sigStarts []int) []byte {
 	}
 }
 
-var verifProbesC20 = []string{"probe:damaged-input-accepted-by-decode", "probe:damaged-input-rejected-by-decode", "probe:damaged-stream-still-yields-assertions", "probe:io-error-surfaced", "probe:long-body", "probe:long-header-value", "probe:nested-container", "probe:newline-led-signature-handed-out", "probe:oversized-assertion-refused", "probe:reader-recovered-after-long-stall", "probe:several-assertions-streamed", "probe:truncated-signature-handed-out", "probe:truncation-reported"}
+var verifProbesC20 = []string{"probe:headers-between-64k-and-the-limit", "probe:headers-end-at-window-boundary", "probe:hostile-header-value-accepted-by-decode", "probe:hostile-header-value-accepted-by-stream-decoder", "probe:decoder-given-a-bufio-reader", "probe:damaged-input-accepted-by-decode", "probe:damaged-input-rejected-by-decode", "probe:damaged-stream-still-yields-assertions", "probe:io-error-surfaced", "probe:long-body", "probe:long-header-value", "probe:nested-container", "probe:oversized-assertion-refused", "probe:reader-recovered-after-long-stall", "probe:several-assertions-streamed", "probe:truncated-signature-handed-out", "probe:truncation-reported"}
+
+var verifHostileInts = []string{"-1", "-1000000", "-9223372036854775808", "9223372036854775807", "9223372036854775808",
+	"99999999999999999999", "2097152", "2097153", "+5", " 5", "5 ", "0x10", "1e3", "five", "", "٣", "0", "00", "-0", "1_000", "4294967296", "-2147483649"}
+
+// hostileHeaders rewrites the header block of one well-formed assertion
+// (content = headers [+ "\n\n" + body]) so that a meta header carries a
+// value no signer would produce; everything else stays as it was.
+func (w *verifC20) hostileHeaders(content []byte, bodyLen int) ([]byte, string) {
+	c := w.c
+	hl := verifHeadLen(content)
+	lines := strings.Split(string(content[:hl]), "\n")
+	rest := string(content[hl:])
+	set := func(name, val string) {
+		for i, l := range lines {
+			if strings.HasPrefix(l, name+": ") || l == name+":" {
+				lines[i] = name + ": " + val
+				return
+			}
+		}
+		// insert before the sign-key header (always the last line)
+		lines = append(lines[:len(lines)-1], name+": "+val, lines[len(lines)-1])
+	}
+	val := func() string {
+		k := c.Draw("hostile-value", len(verifHostileInts)+2)
+		switch {
+		case k == len(verifHostileInts):
+			return strconv.Itoa(bodyLen + 1 + c.Draw("hostile-more", 3))
+		case k == len(verifHostileInts)+1:
+			return strconv.Itoa(bodyLen - 1 - c.Draw("hostile-less", 3))
+		}
+		return verifHostileInts[k]
+	}
+	how := ""
+	switch c.Draw("hostile-how", 6) {
+	case 0, 1, 2:
+		v := val()
+		set("body-length", v)
+		how = fmt.Sprintf("body-length: %q (real body %d)", v, bodyLen)
+	case 3:
+		v := val()
+		set("revision", v)
+		how = fmt.Sprintf("revision: %q", v)
+	case 4:
+		v := val()
+		set("format", v)
+		how = fmt.Sprintf("format: %q", v)
+	case 5:
+		// a header given twice (top-level lines only)
+		var tops []int
+		for i, l := range lines {
+			if l != "" && l[0] != ' ' {
+				tops = append(tops, i)
+			}
+		}
+		p := tops[c.Draw("dup-line", len(tops))]
+		dup := lines[p]
+		if c.Chance("dup-other-value", 1, 2) && strings.Contains(dup, ": ") {
+			dup = dup[:strings.Index(dup, ": ")+2] + val()
+		}
+		at := tops[c.Draw("dup-at", len(tops))]
+		lines = append(lines[:at], append([]string{dup}, lines[at:]...)...)
+		how = fmt.Sprintf("duplicate header %q", verifShort(dup))
+	}
+	return []byte(strings.Join(lines, "\n") + rest), how
+}
